@@ -1384,6 +1384,9 @@ var (
 	vReFall  = regexp.MustCompile(`^\d+\s+fallocate\(\d+, ([^,]+), (\d+), (\d+)\)\s+= 0$`)
 	vReRen   = regexp.MustCompile(`^\d+\s+rename(?:at2?)?\(`)
 	vReUnl   = regexp.MustCompile(`^\d+\s+unlink(?:at)?\(.*= 0$`)
+	// "<pid> write(3, "..."..., 32768 <unfinished ...>"  /  "<pid> <... write resumed>) = 32768"
+	vReUnfinished = regexp.MustCompile(`^((\d+)\s+.*) <unfinished \.\.\.>$`)
+	vReResumed    = regexp.MustCompile(`^(\d+)\s+<\.\.\. \w+ resumed>(.*)$`)
 )
 
 // vParseTrace turns the strace log of one store into length effects, rendered like the oracle's `trace` command:
@@ -1395,7 +1398,23 @@ func vParseTrace(t *testing.T, file string) []string {
 	}
 	var effs []string
 	pos := int64(0)
+	// strace -f splits a syscall into "<unfinished ...>" / "<... name resumed>" halves whenever another thread's line
+	// (typically the Go runtime's SIGURG preemption signal) is printed while it is in progress: re-join the halves per
+	// pid at the place of the resumed half (a writer is pinned to one thread, so its own order is unaffected)
+	pending := map[string]string{}
 	for _, line := range strings.Split(strings.TrimSpace(string(raw)), "\n") {
+		if m := vReUnfinished.FindStringSubmatch(line); m != nil {
+			pending[m[2]] = m[1]
+			continue
+		}
+		if m := vReResumed.FindStringSubmatch(line); m != nil {
+			head, ok := pending[m[1]]
+			if !ok {
+				t.Fatalf("verif: strace resumed half without its first half: %q", line)
+			}
+			delete(pending, m[1])
+			line = head + m[2]
+		}
 		switch {
 		case line == "" || strings.Contains(line, "+++ exited") || strings.Contains(line, "--- SIG") || strings.Contains(line, "<detached ...>"):
 		case vReOpen.MatchString(line):
